@@ -374,7 +374,7 @@ theorem decodePicture_sat (d : DecOpts) (prev : Option PicHdr) :
     Sat (decodePicture d prev) (fun r => ∀ h, r = some h → h.quantizer < 32 ∧ h.tr < 1024) := by
   have h1 := decodePei_sat
   have h2 := decodePtype_sat
-  have h3 := decodePlusptype_sat d (match prev with | some p => p.options | none => 0)
+  have h3 := decodePlusptype_sat d (Header.prevOptions prev)
   have h4 := decodeSorensonPtype_sat
   have h5 := decodeCpmPsbi_sat
   have h6 := decodeCpfmt_sat
